@@ -91,8 +91,20 @@ pub fn build_version(src: &VSrc) -> Option<Version> {
                     IdModel::Num(_) => true,
                     IdModel::Alnum(s) => canonical_alnum(s),
                 });
-            if ok {
-                Some(model_to_version(m))
+            if !ok {
+                return None;
+            }
+            // "canonical identifiers" means canonical for the parser of the tree under test: the
+            // field values must be what parsing their own canonical text yields.  (A tree that
+            // reads digit strings above MAX_SAFE_INTEGER as alphanumeric, as node-semver does,
+            // has a different set of canonical numeric identifiers; that is C05's business.)
+            let v = model_to_version(m);
+            let text = crate::gen::canonical_text(m);
+            if text.len() <= nodejs_semver::MAX_LENGTH {
+                match guarded(|| Version::parse(&text)) {
+                    Ok(Ok(p)) if version_identical(&p, &v) => Some(v),
+                    _ => None,
+                }
             } else {
                 None
             }
@@ -162,9 +174,9 @@ pub fn probes_for(printed: &str) -> Vec<Version> {
         if t.is_empty() {
             continue;
         }
-        let v = match Version::parse(t) {
-            Ok(v) => v,
-            Err(_) => continue,
+        let v = match guarded(|| Version::parse(t)) {
+            Ok(Ok(v)) => v,
+            _ => continue,
         };
         let rel = Version {
             pre_release: vec![],
@@ -247,16 +259,23 @@ pub fn probes_for(printed: &str) -> Vec<Version> {
 /// observed through `allows_any` against the exact-version range)?
 pub fn ranges_agree_on(a: &Range, b: &Range, probes: &[Version]) -> Result<(), String> {
     for p in probes {
-        let (sa, sb) = (a.satisfies(p), b.satisfies(p));
+        // `satisfies` and `allows_any` are the observation instruments here, not the subject: if
+        // one of them panics (C06/C09's business) the probe is skipped rather than blamed on the
+        // round trip
+        let (sa, sb) = match (guarded(|| a.satisfies(p)), guarded(|| b.satisfies(p))) {
+            (Ok(x), Ok(y)) => (x, y),
+            _ => continue,
+        };
         if sa != sb {
             return Err(format!("satisfies({}) differs: {} vs {}", p, sa, sb));
         }
-        // bounds membership: a release twin of a prerelease probe is not the same question, so
-        // ask through an exact range built by the parser; skipped when that text does not parse
-        if let Ok(exact) = Range::parse(format!("={}", p)) {
-            let (ma, mb) = (a.allows_any(&exact), b.allows_any(&exact));
-            if ma != mb {
-                return Err(format!("bounds membership of {} differs: {} vs {}", p, ma, mb));
+        // bounds membership, asked through an exact range built by the parser; skipped when that
+        // text does not parse
+        if let Ok(Ok(exact)) = guarded(|| Range::parse(format!("={}", p))) {
+            if let (Ok(ma), Ok(mb)) = (guarded(|| a.allows_any(&exact)), guarded(|| b.allows_any(&exact))) {
+                if ma != mb {
+                    return Err(format!("bounds membership of {} differs: {} vs {}", p, ma, mb));
+                }
             }
         }
     }
